@@ -633,7 +633,7 @@ fn grid() {
         let m = usize::MAX;
         let im = isize::MAX as usize;
         let d = es.max(1);
-        let mut counts = vec![0usize, 1, 5, m, m - 1, m / 2, m / 2 + 1, m / d, m / d + 1, im / d, im / d + 1, (im / d).saturating_sub(1), im, im + 1];
+        let mut counts = vec![0usize, 1, 5, m, m - 1, m / 2, m / 2 + 1, m / d, (m / d).saturating_add(1), im / d, im / d + 1, (im / d).saturating_sub(1), im, im + 1];
         counts.sort();
         counts.dedup();
         for len0 in [0usize, 3] {
